@@ -156,7 +156,9 @@ fn decode(t: &mut Tape) -> Case {
     }
     let unit = t.below(n);
     let to = t.below(n);
-    let x = if t.bool(1, 6) { gen_amount(t, Dom::Any) } else { gen_amount(t, Dom::Moderate) };
+    // special values are an f64 matter; under decimal the extremes only overflow
+    let special = t.bool(1, 6) && cfg!(not(feature = "dec"));
+    let x = if special { gen_amount(t, Dom::Any) } else { gen_amount(t, Dom::Moderate) };
     Case::Table {
         host,
         note: format!("{}: {} unit #{} -> unit #{} through {} entries", hs[host].name, amt::show(x), unit, to, entries.len()),
